@@ -782,17 +782,26 @@ func init() {
 				files = append(files, f)
 				jo := jpegOpt{w: 100, h: 100, precision: 8, ncomp: 3, progressive: rep%2 == 1, nBefore: rng.Intn(3), nAfter: rng.Intn(3), icc: icc, chunkSize: 0, iccAfterSOF: rng.Intn(2) == 0, body: body, realTables: tables,
 					app2AfterICC: rng.Intn(2) == 0, bigTail: pick(rng, 0, 0, 3)}
+				if icc != nil && rep%2 == 0 {
+					// several chunks arriving in another order than 1..N (the last to arrive is not N of N)
+					jo.chunkSize = len(icc)/3 + 1
+					jo.order = [][]int{{2, 0, 1}, {1, 2, 0}, {2, 1, 0}, {0, 2, 1}}[rng.Intn(4)]
+				}
 				j := buildJPEG(rng, jo)
-				j.Name = fmt.Sprintf("jpeg-body%d%s-icc%d-prog%v-app2AfterICC%v-bigTail%d-iccAfterSOF%v", body, bodyFill, len(icc), jo.progressive, jo.app2AfterICC, jo.bigTail, jo.iccAfterSOF)
+				j.Name = fmt.Sprintf("jpeg-body%d%s-icc%d-order%v-prog%v-app2AfterICC%v-bigTail%d-iccAfterSOF%v", body, bodyFill, len(icc), jo.order, jo.progressive, jo.app2AfterICC, jo.bigTail, jo.iccAfterSOF)
 				files = append(files, j)
 				kind := []string{"vp8", "vp8l", "vp8x"}[rng.Intn(3)]
-				wo := webpOpt{kind: kind, w: 100, h: 100, icc: icc, flagICC: icc != nil && kind == "vp8x", body: body}
+				wicc := icc
+				if icc != nil && kind == "vp8x" && body >= 70000 && rep%2 == 0 {
+					wicc = genProfile(rng, pick(rng, 400000, 500000, 1000000), rng.Intn(2) == 0) // larger than any read-ahead allowance
+				}
+				wo := webpOpt{kind: kind, w: 100, h: 100, icc: wicc, flagICC: wicc != nil && kind == "vp8x", body: body}
 				if kind == "vp8x" {
 					wo.extra = []string{"", "alph", "anmf"}[rng.Intn(3)]
 					wo.extraSize = pick(rng, 100, 70000, 300000)
 				}
 				wf := buildWebP(rng, wo)
-				wf.Name = fmt.Sprintf("webp-%s-body%d%s-icc%d-%s%d", kind, body, bodyFill, len(icc), wo.extra, wo.extraSize)
+				wf.Name = fmt.Sprintf("webp-%s-body%d%s-icc%d-%s%d", kind, body, bodyFill, len(wicc), wo.extra, wo.extraSize)
 				files = append(files, wf)
 			}
 		}
@@ -876,6 +885,13 @@ func init() {
 		}
 		for name, b := range seedFiles() {
 			inputs = append(inputs, inp{"seed:" + name, b})
+		}
+		// headers declaring a zero width or height (legal: a JPEG may give its height in a later DNL segment):
+		// whatever the specific loader says, autometa says the same
+		for _, wh := range [][2]uint32{{0, 7}, {9, 0}, {0, 0}} {
+			inputs = append(inputs, inp{fmt.Sprintf("png-%dx%d", wh[0], wh[1]), buildPNG(rng, pngOpt{w: wh[0], h: wh[1], depth: 8, ctype: 2, nAnc: 1, body: 20, smallAnc: true}).Data},
+				inp{fmt.Sprintf("jpeg-%dx%d", wh[0], wh[1]), buildJPEG(rng, jpegOpt{w: uint16(wh[0]), h: uint16(wh[1]), precision: 8, ncomp: 3, nBefore: 1, body: 20}).Data},
+				inp{fmt.Sprintf("webp-vp8-%dx%d", wh[0], wh[1]), buildWebP(rng, webpOpt{kind: "vp8", w: wh[0], h: wh[1], body: 20}).Data})
 		}
 		var jobs []job
 		for _, in := range inputs {
